@@ -65,6 +65,10 @@ CHECKS = {
          "other",
          "Override histories are the runtime's. Decided: a todo service/parameter compiles to an always-failing constructor/provider with the documented message and is still registered; todo entries count as declared; nothing user-supplied is evaluated while the container is constructed (only registration calls occur outside closures); generated helpers cannot swallow an error; a later file's todo overrides an earlier one.",
          "DESIGN.md §4 C15"),
+ "C11": ("regular-language decisions by on-the-fly determinisation of the regexp/syntax programs (equality with reference grammars, inclusion, disjointness; shortest witnesses), AST field-to-sink coverage of the input model, loop-exit and sibling-completeness lints of the validators, SSA guard atoms of the creation-method rules",
+         "other",
+         "Decides for ALL strings, not samples: each of the 31 validating/recognising regular expressions, as compiled and as used (anchoring or search semantics), accepts exactly the documented grammar; identifier positions admit only identifiers; no language admits whitespace/newline/backslash/unbalanced quotes; prefixes are disjoint. Every string/any leaf of the input model reaches a validator; validators visit every element and call every sibling; todo exemption; creation-method, getter and tag rules; node kinds of the custom unmarshalers. Diagnostic wording is not decided.",
+         "DESIGN.md §4 C11"),
 }
 NOT_YET = "check not built yet in this session (design in DESIGN.md §4); will be claimed once its rules run on /repo"
 
